@@ -285,23 +285,25 @@ def segments {α} (l : List α) : List Nat → List (List α)
   | a :: b :: r => ((l.drop a).take (b - a)) :: segments l (b :: r)
   | _ => []
 
-/-- parts of the repaired splitters for cut points `bounds = [0, …, n]` (at least one cut):
-`PoseTrajectory3D(timestamps=self.timestamps[a:b], poses_se3=copy.deepcopy(self.poses_se3[a:b]))` -/
-def partsNew (h : Heap) (mats : List (List Nat)) (stamps : List (List Rat)) : Heap × List Obj :=
+/-- parts of the repaired splitters for cut points `bounds = [0, …, n]`:
+`PoseTrajectory3D(timestamps=self.timestamps[a:b], poses_se3=copy.deepcopy(self.poses_se3[a:b]))`, resp.
+`PosePath3D(poses_se3=copy.deepcopy(…))` for a path without stamps (`timed = false`) -/
+def partsNew (h : Heap) (timed : Bool) (mats : List (List Nat)) (stamps : List (List Rat)) : Heap × List Obj :=
   match mats, stamps with
   | m :: ms, s :: ss =>
-      let (h1, as) := h.allocList (m.map h.get)
-      let (h2, a) := h1.alloc (.rats s)
-      let (h3, r) := partsNew h2 ms ss
-      (h3, ⟨none, none, some as, some a, false⟩ :: r)
+      let r1 := h.allocList (m.map h.get)
+      let r2 := optAlloc r1.1 (if timed then some 0 else none) (fun _ => .rats s)
+      let r3 := partsNew r2.1 timed ms ss
+      (r3.1, ⟨none, none, some r1.2, r2.2, false⟩ :: r3.2)
   | _, _ => (h, [])
 
-/-- the splitters after fix fa25a82.  `cut = false`: nothing to cut (or fewer than two poses):
-`[copy.deepcopy(self)]`.  The parent's matrix cache is filled (`self.poses_se3`). -/
+/-- the splitters after fix fa25a82.  `cut = false`: the early-outs — fewer than two poses (every splitter, both classes)
+or nothing to cut (time gaps, speed outliers) — return `[copy.deepcopy(self)]`.  Otherwise the parent's matrix cache is
+filled (`self.poses_se3`) and the parts are built from deep-copied slices. -/
 def splitNew (h : Heap) (o : Obj) (cut : Bool) (bounds : List Nat) : Heap × Obj × List Obj :=
   if cut then
     let (h1, o1) := forceSe3 h o
-    let (h2, parts) := partsNew h1 (segments (o1.se3?.getD []) bounds)
+    let (h2, parts) := partsNew h1 o1.stamps?.isSome (segments (o1.se3?.getD []) bounds)
       (segments ((o1.stamps?.map h1.rats).getD []) bounds)
     (h2, o1, parts)
   else
